@@ -3020,6 +3020,11 @@ int x509_access_method_from_der(int *oid, const uint8_t **in, size_t *inlen)
 		else *oid = -1;
 		return ret;
 	}
+	// asn1_oid_info_from_der_ex() returns 1 with info == NULL for a well-formed OID that is not in the table
+	if (!info) {
+		error_print();
+		return -1;
+	}
 	*oid = info->oid;
 	return 1;
 }
